@@ -645,6 +645,11 @@ impl Solver {
         for m in pos.legal_moves() {
             let p2 = pos.make(m);
             let replies = p2.legal_moves();
+            // the budget counts positions generated, not calls
+            self.nodes += 1 + replies.len() as u64;
+            if self.nodes > self.budget {
+                return None;
+            }
             if replies.is_empty() {
                 if p2.in_check(p2.white) {
                     return Some(true);
